@@ -495,12 +495,12 @@ def rule_r8(chk):
 
 
 def run(chk):
-    rule_r1_r2(chk)
-    rule_r7(chk)
-    rule_r3_r4(chk)
-    rule_r5(chk)
-    rule_r6(chk)
-    rule_r8(chk)
+    chk.guard(rule_r1_r2, chk)
+    chk.guard(rule_r7, chk)
+    chk.guard(rule_r3_r4, chk)
+    chk.guard(rule_r5, chk)
+    chk.guard(rule_r6, chk)
+    chk.guard(rule_r8, chk)
     chk.assumptions = [
         "equality with exact Gaussian conditioning is numerical: NOT decided (only the algebraic/structural clauses above)",
         "diffuse initialisation and the smoother algebra beyond shapes are not decided",
